@@ -58,6 +58,12 @@ def oracle(r):
         if r["own_next_execs"] < 4:
             why.append("unbounded mode: the long-running job's own next fire times were not dispatched (%d in 1.5 s, one every 60 ms); its "
                        "Description() %s" % (r["own_next_execs"], what))
+    if r["test"] == "restart_busy_then_barrier" and (not r["barrier_reached"] or r["execs"] < r["jobs"]):
+        why.append("pool of %d: Stop(); Start() while %d job(s) of the first run were still executing: %d jobs due at once in the new run did not run in "
+                   "parallel within 5 s (%d executed) -- the new run has fewer than WorkerLimit workers" % (r["limit"], r["panics"], r["barrier"], r["execs"]))
+    if r["test"] == "misfires_then_barrier" and (not r["barrier_reached"] or r["execs"] < r["jobs"]):
+        why.append("pool of %d: after %d fetches that yielded nothing to execute (jobs an hour beyond OutdatedThreshold: misfires), %d jobs due at once did "
+                   "not run in parallel within 5 s (%d executed)" % (r["limit"], r["panics"], r["barrier"], r["execs"]))
     if r["test"] == "handover_when_any_worker_frees":
         if not r["barrier_reached"]:
             why.append("pool of %d, every worker busy, one more job due: when the job that had started %s ended (the others still running), the "
@@ -103,10 +109,11 @@ Print MISMATCH.
 def model_mismatches(rows):
     items = []
     for i, r in enumerate(rows):
-        blocking = "true" if r["mode"].startswith("blocking") else "false"
-        limit = r["limit"] if r["mode"] in ("pool", "blocking+limit") else 0
-        n = r["barrier"] if (r["test"] in ("barrier_n", "panic_then_barrier") and r["barrier_reached"]) else 0
-        items.append("(%d%%nat, (mkd %s %d, %d%%nat, %d%%nat, %d%%nat, %d%%nat))" % (i, blocking, limit, r["bound"], n, r["max_inflight"], r.get("panics", 0)))
+        blocking = "true" if "blocking" in r["mode"] else "false"
+        limit = r["limit"] if r["mode"] in ("pool", "blocking+limit", "limit+blocking") else 0
+        n = r["barrier"] if (r["test"] in ("barrier_n", "panic_then_barrier", "restart_busy_then_barrier", "misfires_then_barrier") and r["barrier_reached"]) else 0
+        p = r.get("panics", 0) if r["test"] == "panic_then_barrier" else 0
+        items.append("(%d%%nat, (mkd %s %d, %d%%nat, %d%%nat, %d%%nat, %d%%nat))" % (i, blocking, limit, r["bound"], n, r["max_inflight"], p))
     ids, out = lc.coq_eval_list("c12_cases", MODEL_V % ";\n".join(items))
     if ids is None:
         return None, out
@@ -160,9 +167,9 @@ def desc_failures(binp, seed):
     if bad:
         again = [x for x in run_desc(binp, seed + 1) if oracle(x)]
         for r in bad:
-            if any(all(x.get(k) == r.get(k) for k in KEY + ("barrier",)) for x in again) and len(out) < 2:
+            if any(all(x.get(k) == r.get(k) for k in KEY + ("barrier",)) for x in again) and len(out) < 2 and r["test"] not in {o["case"]["test"] for o in out}:
                 out.append({"case": {"kind": "descmodes", **{k: r.get(k) for k in ("mode", "limit", "test", "jobs", "barrier", "bound", "seed")}}, "why": oracle(r),
-                            "observed": {k: r.get(k) for k in ("sibling_execs", "own_next_execs", "sibling_max_gap_ms", "max_inflight", "execs")},
+                            "observed": {k: r.get(k) for k in ("sibling_execs", "own_next_execs", "sibling_max_gap_ms", "max_inflight", "execs", "barrier_reached", "panics")},
                             "how": "looph descmodes: (desc_*) a ticker every 10 ms and a long-running job (every 60 ms) with the given Description(); "
                                    "(handover) WorkerLimit n, n jobs held, one more due, then the i-th started job ends"})
     return rows, out
